@@ -16,6 +16,19 @@ CHECKS["C05"] = dict(level="proof", design="3/C05", technique="type-level facts 
     text="Ranges are type-level in elastic_integer: for every (op, digits, signedness, narrowest) in the matrix the declared range of the result type must contain the exact hull of the operation over the operands' declared ranges and fit its rep; numeric_limits must report that range; EQ kernels show that operands are converted to a type holding both operands and the result before the built-in operator runs.",
     note="Oracle: exact Python integers, C++20 semantics of / % >> on LP64. One template body per operator: value-level EQ on a boundary-rich digit subset + type facts on the full matrix. Bitwise operators are outside the statement.")
 
+CHECKS["C02"] = dict(level="translation_validation", design="3/C02", technique="static translation validation: a/b, a%b, quotient(a,b) kernels vs built-in division kernels as IR normal forms; exponent/width/signedness as type facts",
+    text="a/b and a%b are shown equal, for all operands in the property's domain, to the built-in / and % on the promoted unscaled reps (so the division identity, sign of remainder and |rem|<|b| are the built-in guarantees carried by the exponent facts Ea-Eb / Ea); unwrap(quotient(a,b)) equals ((W)ra << digits(B)) / (W)rb in the result rep W, whose width >= digits(A)+digits(B) and signedness are type facts.",
+    note="Domain split into conjunctive pieces (b != 0, b != -1 | b == -1, a != lowest). Decimal quotient() is ill-formed in CNL and not covered.")
+CHECKS["C03"] = dict(level="translation_validation", design="3/C03", technique="static translation validation of each of the six comparison operators separately against aligned built-in / by-value reference comparisons; by-value (width-insensitive) normal form for integer compares",
+    text="Each comparison operator kernel (scaled_integer with exponent differences, elastic_integer over every sign/width mix, elastic_scaled_integer, single-word wide_integer, built-in vs wrapper) is shown equal for all operand values to its reference; mutual consistency of the six operators follows from the six separate equalities.",
+    note="Multi-limb wide_integer comparisons are not covered (C10). Elastic operands assumed within declared range.")
+CHECKS["C04"] = dict(level="translation_validation", design="3/C04", technique="static translation validation of conversion kernels (int->int both directions, float<->scaled, built-in<->scaled, wrap/unwrap identities) against spec kernels as IR normal forms",
+    text="Conversions are shown equal for all source values to: multiply by Radix^d in the destination rep (d>=0), C++ division toward zero in the source rep (d<0), truncating cast of f*2^-E, F(rep)*2^E, identity for wrap/unwrap and from_rep/to_rep.",
+    note="Correct rounding of int->float is the hardware conversion composed with an exact power-of-two factor (radix 2 only). Values outside the destination range are undefined by the property; both kernels wrap identically there.")
+CHECKS["C16"] = dict(level="translation_validation", design="3/C16", technique="static translation validation of fraction component kernels against cross-multiplication formulas (loops: shared std::gcd), plus an IR dataflow rule on std::hash<fraction>::operator()",
+    text="+ - * / unary, == !=, the four order operators (against the cross-product order corrected for the sign of d1*d2), float conversion, reduce and canonical are shown equal to their rational-arithmetic formulas for all components; the hash function's argument is shown to flow only into canonical().",
+    note="Cross products assumed to fit (both sides wrap identically otherwise). Equal fractions => equal canonical forms is the composition of the reduce/canonical facts, not separately proved.")
+
 NOT_APPLICABLE = {
     "C10": "limb-array loops of the vendored uintwide_t have data-dependent control; no static abstraction in reach relates them to arithmetic mod 2^N (DESIGN 3/C10)",
     "C17": "termination/accuracy of the floating-point driven Stern-Brocot loop is a numerical statement with no structural clause (DESIGN 3/C17)",
